@@ -105,7 +105,7 @@ theorem C12_timeout_fires (ops : List Op) (k : Nat) (w : Waiter) (hk : (run ops)
   refine ⟨{ (cancelW k w).1 with expired := true }, ?_, rfl, ?_, ?_⟩
   · rw [hrun]
     simp only [step, hk, ha, he, Bool.not_false, Bool.and_self, if_true, State.put]
-    simp [List.getElem?_set, hlt]
+    simp [hlt]
   · rcases cancelW_cases k w with ⟨_, hc⟩ | ⟨_, hc⟩ <;> rw [hc]
   · rcases cancelW_cases k w with ⟨_, hc⟩ | ⟨hp, hc⟩ <;> rw [hc]
     · simp
